@@ -4,10 +4,12 @@ import (
 	"encoding/json"
 	"fmt"
 	"math/rand"
+	"net/url"
 	"strings"
 
 	res "github.com/jirenius/go-res"
 	"github.com/jirenius/go-res/store"
+	"github.com/jirenius/go-res/store/mockstore"
 
 	"verif/harness/internal/core"
 	"verif/harness/internal/ref"
@@ -156,6 +158,24 @@ func c17Registration(c *core.Ctx, s string) {
 	} else if pn != nil {
 		sig := "C17/register-rejects-valid:" + c17Shape(s)
 		c.Violation(sig, fmt.Sprintf("Handle(%q) panicked (%v) although the pattern is valid", s, pn), map[string]interface{}{"pattern": s, "panic": fmt.Sprint(pn)})
+	}
+	if !dup && pn == nil {
+		// a consumer of wildcard indexing at registration: a store.QueryHandler without an
+		// AffectedResources callback uses the registered pattern as the resource name and
+		// must be refused exactly when the full pattern has a wildcard - in any position,
+		// the very first one of an unnamed service included
+		for _, name := range []string{"", "svc"} {
+			full := mergeDots(name, s)
+			wantRefused := ref.IndexWildcard(full) >= 0
+			svc := res.NewService(name)
+			qpn := try(func() {
+				svc.Handle(s, res.Collection, store.QueryHandler{QueryStore: mockstore.NewQueryStore(func(url.Values) (interface{}, error) { return []string{}, nil })})
+			})
+			c.Obs("query_handler_registrations", 1)
+			if wantRefused != (qpn != nil) {
+				c.Violation(fmt.Sprintf("C17/query-handler-registration:refused=%v:%s", qpn != nil, c17Shape(full)), fmt.Sprintf("store.QueryHandler without AffectedResources on pattern %q of service %q: refused=%v, the full pattern %q has its first wildcard at index %d", s, name, qpn != nil, full, ref.IndexWildcard(full)), map[string]interface{}{"pattern": s, "service": name, "panic": fmt.Sprint(qpn)})
+			}
+		}
 	}
 	// the verdict does not depend on what was registered before: the same pattern on a Mux
 	// that already holds handlers sharing every placeholder position with it (other tag
